@@ -345,7 +345,36 @@ func c16Format(w *World, r *Report) {
 		r.fail(rule, "result-and-error-used", w.instrPos(call), "FormatPacketDsl's text or error result is discarded")
 		return
 	}
-	c16FormatInput(w, r, run, call)
+	// run may be a layer below the command's Run function: its parameters are what the (unique) caller passes
+	runBs := bindings{}
+	{
+		cur := run
+		for depth := 0; depth < 3 && len(cur.Params) > 0 && runFieldOf(w, cur) == ""; depth++ {
+			var site ssa.CallInstruction
+			n := 0
+			for _, g := range w.srcFuncs {
+				if g.Pkg != w.Cmd && (g.Parent() == nil || g.Parent().Pkg != w.Cmd) {
+					continue
+				}
+				forEachInstr(g, func(_ *ssa.BasicBlock, ins ssa.Instruction) {
+					if c, ok := ins.(ssa.CallInstruction); ok && c.Common().StaticCallee() == cur {
+						site = c
+						n++
+					}
+				})
+			}
+			if n != 1 {
+				break
+			}
+			for i, p := range cur.Params {
+				if i < len(site.Common().Args) {
+					runBs[p] = site.Common().Args[i]
+				}
+			}
+			cur = site.Parent()
+		}
+	}
+	c16FormatInput(w, r, run, call, runBs)
 	// error edge: exits non-zero, no file write
 	errHandled := false
 	for _, b := range run.Blocks {
@@ -375,6 +404,12 @@ func c16Format(w *World, r *Report) {
 				}
 			}
 		}
+		if !exits && writes == "" {
+			// the error is returned to a caller that exits on it
+			if errorDeliveredV(w, res1, call, 0) == "" {
+				exits = true
+			}
+		}
 		if exits && writes == "" {
 			errHandled = true
 			r.pass(rule, "error-edge exits non-zero without file write", w.instrPos(b.Instrs[len(b.Instrs)-1]), "")
@@ -388,6 +423,20 @@ func c16Format(w *World, r *Report) {
 	}
 	// sinks of the result
 	sinks, others := w.followToSinks(res0, 0, map[ssa.Value]bool{})
+	for i := range sinks {
+		if len(runBs) > 0 {
+			nb := bindings{}
+			for k, v := range sinks[i].Bs {
+				nb[k] = v
+			}
+			for k, v := range runBs {
+				if _, have := nb[k]; !have {
+					nb[k] = v
+				}
+			}
+			sinks[i].Bs = nb
+		}
+	}
 	var stdoutSinks, fileSinks []sinkUse
 	for _, s := range sinks {
 		if s.Stdout {
@@ -1026,6 +1075,61 @@ func c16Compile(w *World, r *Report) {
 					}
 				}
 			}
+			// ... or the record that carries the directory was put on the list of targets only when it was given (the test guards the
+			// append in the function that assembles the list)
+			if !wanted {
+				le := c.env
+				if label != "" {
+					le = d.withLit(c.env, d.lastTable, d.lastTable.lits[d.labelIndex(label)])
+				}
+				d.appends = nil
+				d.eval(args[0], le, 0)
+				for _, ap := range d.appends {
+					for _, bb := range ap.call.Parent().Blocks {
+						cond := branchCond(bb)
+						if cond == nil {
+							continue
+						}
+						neg := false
+						cc := cond
+						for {
+							if u, ok := cc.(*ssa.UnOp); ok && u.Op == token.NOT {
+								neg = !neg
+								cc = u.X
+								continue
+							}
+							break
+						}
+						bo, ok := cc.(*ssa.BinOp)
+						if !ok || (bo.Op != token.NEQ && bo.Op != token.EQL) {
+							continue
+						}
+						var other ssa.Value
+						if s, ok := constString(bo.X); ok && s == "" {
+							other = bo.Y
+						} else if s, ok := constString(bo.Y); ok && s == "" {
+							other = bo.X
+						}
+						if other == nil {
+							continue
+						}
+						if sv := d.eval(other, ap.env, 0); sv.Kind != "outkey" || sv.S != dir.S {
+							continue
+						}
+						nonEmptyOnTrue := bo.Op == token.NEQ
+						if neg {
+							nonEmptyOnTrue = !nonEmptyOnTrue
+						}
+						succ := 1
+						if nonEmptyOnTrue {
+							succ = 0
+						}
+						if edgeDominates(bb, succ, ap.call.Block()) {
+							wanted = true
+						}
+					}
+				}
+			}
 			wkey := fmt.Sprintf("outputs[%q] is written only when it was given", dir.S)
 			if wanted {
 				r.pass(rule, wkey, w.instrPos(c.call), "")
@@ -1164,6 +1268,49 @@ func c16Compile(w *World, r *Report) {
 	if runE == nil {
 		r.fatal("anchor unresolved: compile RunE closure calling Compile")
 	} else {
+		cc := callsTo(runE, modPath+"/cmd.Compile")[0].Common()
+		// the function that calls Compile may be a layer below the command's Run function: climb the (unique) static call sites in cmd,
+		// binding parameters, until a function is reached that is stored in a cobra.Command
+		callEnv := &drvEnv{}
+		{
+			chain := []*ssa.Function{runE}
+			var sites []ssa.CallInstruction
+			for len(chain) < 5 && runFieldOf(w, chain[len(chain)-1]) == "" {
+				cur := chain[len(chain)-1]
+				var site ssa.CallInstruction
+				n := 0
+				for _, g := range w.srcFuncs {
+					if g.Pkg != w.Cmd && (g.Parent() == nil || g.Parent().Pkg != w.Cmd) {
+						continue
+					}
+					forEachInstr(g, func(_ *ssa.BasicBlock, ins ssa.Instruction) {
+						if c, ok := ins.(ssa.CallInstruction); ok && c.Common().StaticCallee() == cur {
+							site = c
+							n++
+						}
+					})
+				}
+				if n != 1 {
+					break
+				}
+				sites = append(sites, site)
+				chain = append(chain, site.Parent())
+			}
+			// bind top-down
+			env := &drvEnv{}
+			for i := len(sites) - 1; i >= 0; i-- {
+				callee := chain[i]
+				ne := &drvEnv{params: map[*ssa.Parameter]drvBound{}}
+				for j, p := range callee.Params {
+					if j < len(sites[i].Common().Args) {
+						ne.params[p] = drvBound{sites[i].Common().Args[j], env}
+					}
+				}
+				env = ne
+			}
+			callEnv = env
+			runE = chain[len(chain)-1]
+		}
 		// which command owns this RunE: the global whose literal stores the closure
 		owner := ""
 		for _, fn := range w.srcFuncs {
@@ -1200,8 +1347,7 @@ func c16Compile(w *World, r *Report) {
 				}
 			})
 		}
-		cc := callsTo(runE, modPath+"/cmd.Compile")[0].Common()
-		outs := d.eval(cc.Args[1], &drvEnv{}, 0)
+		outs := d.eval(cc.Args[1], callEnv, 0)
 		for _, k := range sortedKeys(flagKeyNames) {
 			key := fmt.Sprintf("outputs[%q] is the value of --%s", k, flagKeyNames[k])
 			v, ok := outs.Map[k]
@@ -1216,7 +1362,7 @@ func c16Compile(w *World, r *Report) {
 				r.pass(rule, key, w.pos(runE.Pos()), "through variable "+v.S)
 			}
 		}
-		in := d.eval(cc.Args[0], &drvEnv{}, 0)
+		in := d.eval(cc.Args[0], callEnv, 0)
 		if in.Kind == "flagvar" && flagOf[owner+"|"+in.S] == "file" {
 			r.pass(rule, "Compile(file, outputs)", w.pos(runE.Pos()), "")
 		} else {
@@ -1321,38 +1467,80 @@ func resolveParam(v ssa.Value, bs bindings) ssa.Value {
 // c16Writer checks WriteCodeToFile's loop (following its private helpers).
 func c16Writer(w *World, r *Report, fn *ssa.Function) {
 	const rule = "C16/writer"
-	loops := mapRangeLoops(fn)
-	if len(loops) != 1 || len(fn.Params) < 2 || loops[0].Range.X != ssa.Value(fn.Params[1]) {
-		r.fail(rule, "ranges over the code map", w.pos(fn.Pos()), "WriteCodeToFile does not consist of one range over its map parameter")
+	if len(fn.Params) < 2 {
+		r.fail(rule, "ranges over the code map", w.pos(fn.Pos()), "WriteCodeToFile does not take a directory and a code map")
 		return
 	}
-	lp := loops[0]
+	mapParam := ssa.Value(fn.Params[1])
 	var keyV, valV ssa.Value
-	for _, ref := range *lp.Next.Referrers() {
-		if e, ok := ref.(*ssa.Extract); ok {
-			switch e.Index {
-			case 1:
-				keyV = e
-			case 2:
-				valV = e
-			}
-		}
-	}
-	lpBlocks, lpHeader, lpPos := lp.Blocks, lp.Next.Block(), ssa.Instruction(lp.Range)
-	isMapValue := func(v ssa.Value) bool { return sameValue(v, valV) }
-	// the other form: the keys are collected first (every key, to be put in a fixed order) and the files are written in a loop over
-	// the collected keys, each with the map's value under that key
-	if kb, hd, key, ok := keyListLoop(fn, lp, keyV); ok {
-		lpBlocks, lpHeader, keyV = kb, hd, key
-		lpPos = hd.Instrs[0]
-		isMapValue = func(v ssa.Value) bool {
+	var lpBlocks map[*ssa.BasicBlock]bool
+	var lpHeader *ssa.BasicBlock
+	var lpPos ssa.Instruction
+	isMapValue := func(v ssa.Value) bool { return false }
+	lookupValue := func(key ssa.Value) func(ssa.Value) bool {
+		return func(v ssa.Value) bool {
 			lk, ok := stripIdentity(v).(*ssa.Lookup)
 			if !ok {
 				if ex, isEx := stripIdentity(v).(*ssa.Extract); isEx && ex.Index == 0 {
 					lk, ok = ex.Tuple.(*ssa.Lookup)
 				}
 			}
-			return ok && lk.X == ssa.Value(fn.Params[1]) && sameValue(lk.Index, key)
+			return ok && lk.X == mapParam && sameValue(lk.Index, key)
+		}
+	}
+	// form 1: one range over the map parameter (possibly only to collect the keys, see keyListLoop)
+	if loops := mapRangeLoops(fn); len(loops) == 1 && loops[0].Range.X == mapParam {
+		lp := loops[0]
+		for _, ref := range *lp.Next.Referrers() {
+			if e, ok := ref.(*ssa.Extract); ok {
+				switch e.Index {
+				case 1:
+					keyV = e
+				case 2:
+					valV = e
+				}
+			}
+		}
+		lpBlocks, lpHeader, lpPos = lp.Blocks, lp.Next.Block(), ssa.Instruction(lp.Range)
+		vv := valV
+		isMapValue = func(v ssa.Value) bool { return sameValue(v, vv) }
+		if kb, hd, key, ok := keyListLoop(fn, lp, keyV); ok {
+			lpBlocks, lpHeader, keyV = kb, hd, key
+			lpPos = hd.Instrs[0]
+			isMapValue = lookupValue(key)
+		}
+	} else {
+		// form 2: a loop over a list of all the keys of the map that somebody else made: a parser helper that collects every key
+		// of its map parameter, or the standard library's maps.Keys (sorted / collected)
+		forEachInstr(fn, func(_ *ssa.BasicBlock, ins ssa.Instruction) {
+			if lpBlocks != nil {
+				return
+			}
+			ld, ok := ins.(*ssa.UnOp)
+			if !ok || ld.Op != token.MUL {
+				return
+			}
+			ia, ok := ld.X.(*ssa.IndexAddr)
+			if !ok || !w.allKeysOf(ia.X, mapParam, 0) {
+				return
+			}
+			var phi *ssa.Phi
+			switch ix := ia.Index.(type) {
+			case *ssa.BinOp:
+				phi, _ = ix.X.(*ssa.Phi)
+			case *ssa.Phi:
+				phi = ix
+			}
+			if phi == nil || phi.Comment != "rangeindex" {
+				return
+			}
+			lpBlocks, lpHeader, keyV = naturalLoop(phi.Block()), phi.Block(), ld
+			lpPos = phi.Block().Instrs[0]
+			isMapValue = lookupValue(ld)
+		})
+		if lpBlocks == nil {
+			r.fail(rule, "ranges over the code map", w.pos(fn.Pos()), "WriteCodeToFile neither ranges over its map parameter nor loops over a list of all its keys")
+			return
 		}
 	}
 	ws := w.writerSet(fn)
@@ -1416,6 +1604,15 @@ func c16Writer(w *World, r *Report, fn *ssa.Function) {
 				if s, ok := constString(bo2.Y); ok && s == "/" && bo2.X == ssa.Value(fn.Params[0]) {
 					pathOK = true
 				}
+			}
+		}
+	}
+	if !pathOK {
+		// the same three pieces, assembled across helpers and record members
+		pieces := w.flattenConcat(create.call.Common().Args[0], create.bs, ws, 0)
+		if len(pieces) == 3 && stripIdentity(pieces[0]) == ssa.Value(fn.Params[0]) && sameValue(pieces[2], keyV) {
+			if s, ok := constString(pieces[1]); ok && s == "/" {
+				pathOK = true
 			}
 		}
 	}
@@ -1509,9 +1706,18 @@ func c16Execute(w *World, r *Report) {
 		work = work[:len(work)-1]
 		forEachInstr(f, func(_ *ssa.BasicBlock, ins ssa.Instruction) {
 			if c, ok := ins.(ssa.CallInstruction); ok {
-				if g := c.Common().StaticCallee(); g != nil && g.Pkg == w.Cmd && g.Blocks != nil {
-					sites[g] = append(sites[g], c)
-					if !set[g] {
+				for _, g := range calleesOfAll(c) {
+					if g != nil && g.Pkg == w.Cmd && g.Blocks != nil {
+						sites[g] = append(sites[g], c)
+						if !set[g] {
+							set[g] = true
+							work = append(work, g)
+						}
+					}
+				}
+				// cmd functions handed on as values (a predicate passed to a helper)
+				for _, a := range c.Common().Args {
+					if g, ok := stripIdentity(a).(*ssa.Function); ok && g.Pkg == w.Cmd && g.Blocks != nil && !set[g] {
 						set[g] = true
 						work = append(work, g)
 					}
@@ -1551,6 +1757,66 @@ func c16Execute(w *World, r *Report) {
 		usesCommands := len(callsTo(f, "(*github.com/spf13/cobra.Command).Commands")) > 0
 		usesName := len(callsTo(f, "(*github.com/spf13/cobra.Command).Name")) > 0
 		literalCmp, trueOnMatch := false, false
+		// the registered names may be gathered by cmd helpers of the predicate (a list of names, a map keyed by name): what those
+		// helpers consult counts as well, and so does any literal they compare with
+		{
+			seenH := map[*ssa.Function]bool{f: true}
+			work := []*ssa.Function{f}
+			for len(work) > 0 {
+				cur := work[len(work)-1]
+				work = work[:len(work)-1]
+				forEachInstr(cur, func(_ *ssa.BasicBlock, ins ssa.Instruction) {
+					if c, ok := ins.(ssa.CallInstruction); ok {
+						if h := c.Common().StaticCallee(); h != nil && h.Pkg == w.Cmd && h.Blocks != nil && !seenH[h] {
+							seenH[h] = true
+							work = append(work, h)
+						}
+					}
+				})
+			}
+			for h := range seenH {
+				if h == f {
+					continue
+				}
+				if len(callsTo(h, "(*github.com/spf13/cobra.Command).Commands")) > 0 {
+					usesCommands = true
+				}
+				if len(callsTo(h, "(*github.com/spf13/cobra.Command).Name")) > 0 {
+					usesName = true
+				}
+				forEachInstr(h, func(_ *ssa.BasicBlock, ins ssa.Instruction) {
+					if bo, ok := ins.(*ssa.BinOp); ok && (bo.Op == token.EQL || bo.Op == token.NEQ) {
+						if _, ok := constString(bo.X); ok {
+							literalCmp = true
+						}
+						if _, ok := constString(bo.Y); ok {
+							literalCmp = true
+						}
+					}
+				})
+			}
+		}
+		// membership forms whose polarity is positive by construction: `_, found := byName[arg]; return found`, slices.Contains(names, arg)
+		memberForm := false
+		forEachInstr(f, func(_ *ssa.BasicBlock, ins ssa.Instruction) {
+			ret, ok := ins.(*ssa.Return)
+			if !ok || len(ret.Results) != 1 {
+				return
+			}
+			switch x := stripIdentity(ret.Results[0]).(type) {
+			case *ssa.Extract:
+				if lk, ok := x.Tuple.(*ssa.Lookup); ok && lk.CommaOk && x.Index == 1 && stripIdentity(lk.Index) == ssa.Value(f.Params[0]) {
+					memberForm = true
+				}
+			case *ssa.Call:
+				if c := x.Call.StaticCallee(); c != nil && strings.HasPrefix(c.String(), "slices.Contains[") && len(x.Call.Args) == 2 && stripIdentity(x.Call.Args[1]) == ssa.Value(f.Params[0]) {
+					memberForm = true
+				}
+			}
+		})
+		if memberForm && usesCommands && usesName && !literalCmp {
+			return true, "membership of the argument in a collection of the registered commands' names"
+		}
 		forEachInstr(f, func(b *ssa.BasicBlock, ins ssa.Instruction) {
 			bo, ok := ins.(*ssa.BinOp)
 			if !ok || (bo.Op != token.EQL && bo.Op != token.NEQ) {
@@ -1785,10 +2051,10 @@ func c16Execute(w *World, r *Report) {
 					break
 				}
 				call, ok := c.(*ssa.Call)
-				if !ok || call.Call.StaticCallee() == nil || !set[call.Call.StaticCallee()] || len(call.Call.Args) == 0 {
+				if !ok || calleeOf(call) == nil || !set[calleeOf(call)] || len(call.Call.Args) == 0 {
 					continue
 				}
-				okPred, why := isSubPred(call.Call.StaticCallee())
+				okPred, why := isSubPred(calleeOf(call))
 				if !okPred {
 					predWhy = why
 					continue
@@ -1958,7 +2224,7 @@ func (w *World) flagNamesOf(g *ssa.Global) map[string]bool {
 // c16FormatInput: what the format command hands to the formatter is the -d text when one is given, otherwise the content of the -f file;
 // a read error or the absence of both never reaches the formatter. Decided by tracing the argument of FormatPacketDsl back to its
 // sources (through phis, conversions and cmd helpers with their parameters bound) and checking the guard of each.
-func c16FormatInput(w *World, r *Report, run *ssa.Function, call *ssa.Call) {
+func c16FormatInput(w *World, r *Report, run *ssa.Function, call *ssa.Call, runBs bindings) {
 	const rule = "C16/format-input"
 	type leaf struct {
 		kind string // flag | file | const | other
@@ -1995,6 +2261,7 @@ func c16FormatInput(w *World, r *Report, run *ssa.Function, call *ssa.Call) {
 		return nil
 	}
 	seen := map[ssa.Value]bool{}
+	gatedHelpers := map[*ssa.Function]bool{} // helpers whose error result the caller tests before the formatter runs, and exits on
 	var trace func(v ssa.Value, fn *ssa.Function, bs bindings, at *ssa.BasicBlock, depth int)
 	trace = func(v ssa.Value, fn *ssa.Function, bs bindings, at *ssa.BasicBlock, depth int) {
 		if depth > 12 {
@@ -2039,6 +2306,52 @@ func c16FormatInput(w *World, r *Report, run *ssa.Function, call *ssa.Call) {
 					return
 				}
 			}
+			// a component of what a cmd helper returns: `text, err := formatInput(dsl, file)`
+			if c, ok := x.Tuple.(*ssa.Call); ok {
+				if h := c.Call.StaticCallee(); h != nil && h.Pkg == w.Cmd && h.Blocks != nil {
+					nb := bindings{}
+					for k, val := range bs {
+						nb[k] = val
+					}
+					for i, p := range h.Params {
+						if i < len(c.Call.Args) {
+							nb[p] = c.Call.Args[i]
+						}
+					}
+					// the helper's error result, as seen by the caller: when the formatter call is behind its nil edge and a non-nil value
+					// ends the command, the returns that carry an error never feed the formatter
+					errIdx := -1
+					for i := 0; i < h.Signature.Results().Len(); i++ {
+						if isErrorType(h.Signature.Results().At(i).Type()) {
+							errIdx = i
+						}
+					}
+					gated := false
+					if errIdx >= 0 && c.Referrers() != nil {
+						for _, ref := range *c.Referrers() {
+							if e2, ok := ref.(*ssa.Extract); ok && e2.Index == errIdx {
+								if guardedByNil(at, e2, false) && errorDeliveredV(w, e2, c, 0) == "" {
+									gated = true
+								}
+							}
+						}
+					}
+					for _, b := range h.Blocks {
+						ret, ok := b.Instrs[len(b.Instrs)-1].(*ssa.Return)
+						if !ok || x.Index >= len(ret.Results) {
+							continue
+						}
+						if gated && errIdx < len(ret.Results) && definitelyNonNilErr(ret.Results[errIdx]) {
+							continue
+						}
+						if gated {
+							gatedHelpers[h] = true
+						}
+						trace(ret.Results[x.Index], h, nb, b, depth+1)
+					}
+					return
+				}
+			}
 			leaves = append(leaves, leaf{kind: "other", at: at, fn: fn, desc: "component of a call"})
 		case *ssa.Call:
 			if h := x.Call.StaticCallee(); h != nil && h.Pkg == w.Cmd && h.Blocks != nil {
@@ -2063,7 +2376,7 @@ func c16FormatInput(w *World, r *Report, run *ssa.Function, call *ssa.Call) {
 			leaves = append(leaves, leaf{kind: "other", at: at, fn: fn, desc: fmt.Sprintf("%T", v)})
 		}
 	}
-	trace(call.Call.Args[0], run, bindings{}, call.Block(), 0)
+	trace(call.Call.Args[0], run, runBs, call.Block(), 0)
 	// nonEmptyGuard: at is dominated by the non-empty edge of a comparison of global g's value with ""
 	nonEmptyGuard := func(fn *ssa.Function, bs bindings, g *ssa.Global, at *ssa.BasicBlock) bool {
 		for _, bb := range fn.Blocks {
@@ -2163,6 +2476,42 @@ func c16FormatInput(w *World, r *Report, run *ssa.Function, call *ssa.Call) {
 					}
 					if !reaches && exits {
 						okErr = true
+					}
+					// ... or every way out of the helper from here returns a fresh error, and the caller stops on it
+					if gatedHelpers[lf.fn] {
+						all := true
+						any := false
+						seenB := map[*ssa.BasicBlock]bool{}
+						st := []*ssa.BasicBlock{bb.Succs[nn]}
+						for len(st) > 0 {
+							cur := st[len(st)-1]
+							st = st[:len(st)-1]
+							if seenB[cur] {
+								continue
+							}
+							seenB[cur] = true
+							if ret, ok := cur.Instrs[len(cur.Instrs)-1].(*ssa.Return); ok {
+								any = true
+								okRet := false
+								for _, rv := range ret.Results {
+									if isErrorType(rv.Type()) && definitelyNonNilErr(rv) {
+										okRet = true
+									}
+								}
+								if !okRet {
+									all = false
+								}
+							}
+							for _, i3 := range cur.Instrs {
+								if i3 == ssa.Instruction(call) {
+									all = false
+								}
+							}
+							st = append(st, cur.Succs...)
+						}
+						if any && all {
+							okErr = true
+						}
 					}
 				}
 			}
@@ -2344,4 +2693,187 @@ func keyListLoop(fn *ssa.Function, lp rangeLoop, mapKey ssa.Value) (map[*ssa.Bas
 		}
 	}
 	return nil, nil, nil, false
+}
+
+// allKeysOf: the slice v holds every key of the map m (in some order): maps.Keys(m) sorted or collected by the standard library,
+// or the result of a parser function that ranges over its map parameter and appends the key on every iteration.
+func (w *World) allKeysOf(v ssa.Value, m ssa.Value, depth int) bool {
+	if depth > 3 {
+		return false
+	}
+	c, ok := stripIdentity(v).(*ssa.Call)
+	if !ok {
+		return false
+	}
+	f := c.Call.StaticCallee()
+	if f == nil {
+		return false
+	}
+	name := f.String()
+	if i := strings.Index(name, "["); i >= 0 {
+		name = name[:i]
+	}
+	switch name {
+	case "slices.Sorted", "slices.Collect":
+		if len(c.Call.Args) == 1 {
+			if kc, ok := stripIdentity(c.Call.Args[0]).(*ssa.Call); ok && kc.Call.StaticCallee() != nil {
+				kn := kc.Call.StaticCallee().String()
+				if i := strings.Index(kn, "["); i >= 0 {
+					kn = kn[:i]
+				}
+				return kn == "maps.Keys" && len(kc.Call.Args) == 1 && stripIdentity(kc.Call.Args[0]) == stripIdentity(m)
+			}
+		}
+		return false
+	}
+	if f.Blocks == nil || f.Pkg != w.Parser {
+		// an instantiation of a generic parser function has no package of its own: look at its origin
+		if o := f.Origin(); o == nil || o.Pkg != w.Parser || f.Blocks == nil {
+			return false
+		}
+	}
+	// which parameter receives m?
+	pidx := -1
+	for i, a := range c.Call.Args {
+		if stripIdentity(a) == stripIdentity(m) {
+			pidx = i
+		}
+		if ct, ok := stripIdentity(a).(*ssa.ChangeType); ok && stripIdentity(ct.X) == stripIdentity(m) {
+			pidx = i
+		}
+	}
+	if pidx < 0 || pidx >= len(f.Params) {
+		return false
+	}
+	loops := mapRangeLoops(f)
+	if len(loops) != 1 || stripIdentity(loops[0].Range.X) != ssa.Value(f.Params[pidx]) {
+		return false
+	}
+	lp := loops[0]
+	var key ssa.Value
+	for _, ref := range *lp.Next.Referrers() {
+		if e, ok := ref.(*ssa.Extract); ok && e.Index == 1 {
+			key = e
+		}
+	}
+	if key == nil {
+		return false
+	}
+	var app *ssa.Call
+	for b := range lp.Blocks {
+		for _, ins := range b.Instrs {
+			if ac, ok := ins.(*ssa.Call); ok {
+				if bi, ok := ac.Call.Value.(*ssa.Builtin); ok && bi.Name() == "append" && len(ac.Call.Args) == 2 {
+					for _, o := range variadicOperands(ac.Call.Args[1]) {
+						if sameValue(o, key) {
+							app = ac
+						}
+					}
+				}
+			}
+		}
+	}
+	if app == nil {
+		return false
+	}
+	header := lp.Next.Block()
+	for _, p := range header.Preds {
+		if lp.Blocks[p] && header.Dominates(p) && p != header && !app.Block().Dominates(p) {
+			return false
+		}
+	}
+	// every return hands back the accumulated slice
+	var fromApp func(x ssa.Value, d int, seen map[ssa.Value]bool) bool
+	fromApp = func(x ssa.Value, d int, seen map[ssa.Value]bool) bool {
+		x = stripIdentity(x)
+		if x == ssa.Value(app) {
+			return true
+		}
+		if d > 5 || seen[x] {
+			return false
+		}
+		seen[x] = true
+		if ph, ok := x.(*ssa.Phi); ok {
+			for _, e := range ph.Edges {
+				if fromApp(e, d+1, seen) {
+					return true
+				}
+			}
+		}
+		return false
+	}
+	okRet := false
+	for _, b := range f.Blocks {
+		if ret, ok := b.Instrs[len(b.Instrs)-1].(*ssa.Return); ok {
+			if len(ret.Results) != 1 || !fromApp(ret.Results[0], 0, map[ssa.Value]bool{}) {
+				return false
+			}
+			okRet = true
+		}
+	}
+	return okRet
+}
+
+// flattenConcat: the operands of a string concatenation in source order, through parameters (bindings), calls of the writer's
+// private helpers that return one such expression, and members of a local record that are assigned once.
+func (w *World) flattenConcat(v ssa.Value, bs bindings, within map[*ssa.Function]bool, depth int) []ssa.Value {
+	if depth > 8 {
+		return []ssa.Value{v}
+	}
+	v = resolveParam(v, bs)
+	switch x := v.(type) {
+	case *ssa.BinOp:
+		if x.Op == token.ADD {
+			return append(w.flattenConcat(x.X, bs, within, depth+1), w.flattenConcat(x.Y, bs, within, depth+1)...)
+		}
+	case *ssa.Call:
+		h := x.Call.StaticCallee()
+		if h == nil || h.Blocks == nil || !(within[h] || h.Pkg == w.Parser) {
+			return []ssa.Value{v}
+		}
+		nb := bindings{}
+		for k, val := range bs {
+			nb[k] = val
+		}
+		for i, p := range h.Params {
+			if i < len(x.Call.Args) {
+				nb[p] = x.Call.Args[i]
+			}
+		}
+		var only []ssa.Value
+		n := 0
+		for _, b := range h.Blocks {
+			if ret, ok := b.Instrs[len(b.Instrs)-1].(*ssa.Return); ok && len(ret.Results) == 1 {
+				only = w.flattenConcat(ret.Results[0], nb, within, depth+1)
+				n++
+			}
+		}
+		if n == 1 {
+			return only
+		}
+	case *ssa.UnOp:
+		// a member of a record: the one value stored into that member of the record the receiver denotes
+		if fa, ok := x.X.(*ssa.FieldAddr); ok && x.Op == token.MUL {
+			rec := resolveParam(fa.X, bs)
+			if al, ok := stripIdentity(rec).(*ssa.Alloc); ok && al.Referrers() != nil {
+				var val ssa.Value
+				n := 0
+				for _, ref := range *al.Referrers() {
+					if f2, ok := ref.(*ssa.FieldAddr); ok && f2.Field == fa.Field && f2.Referrers() != nil {
+						for _, r2 := range *f2.Referrers() {
+							if st, ok := r2.(*ssa.Store); ok && st.Addr == ssa.Value(f2) {
+								val = st.Val
+								n++
+							}
+						}
+					}
+				}
+				if n == 1 {
+					// the record lives in the function that made it: its member values are that function's (the writer's own) values
+					return w.flattenConcat(val, bindings{}, within, depth+1)
+				}
+			}
+		}
+	}
+	return []ssa.Value{v}
 }
